@@ -53,7 +53,7 @@ def parse_module(path):
                 kv['props'] = kv.get('props', '').split(',')
                 kv.setdefault('tier', 'quick')
                 kv.setdefault('label', 'bounded')
-                kv.setdefault('timeout', '600')
+                kv.setdefault('timeout', '300')
                 kv['module'] = mod['name']
                 mod['harnesses'].append(kv)
             elif body.startswith('hole '):
@@ -235,7 +235,9 @@ def parse_kani_output(out, harness_names):
         m = re.search(r'Verification Time: ([\d.]+)s', b)
         if m:
             r['time_s'] = float(m.group(1))
-        if 'CBMC failed' in b or 'CBMC timed out' in b or 'out of memory' in b.lower() or 'Segmentation' in b:
+        if 'timed out' in b.lower():
+            r['status'] = 'timeout'
+        if 'CBMC failed' in b or 'out of memory' in b.lower() or 'Segmentation' in b:
             r['status'] = 'crash'
         r['text'] = b[-3000:]
         res[short] = r
